@@ -1,4 +1,4 @@
-import shim, warnings, traceback, tempfile, os
+import sktime_compat as shim, warnings, traceback, tempfile, os
 warnings.filterwarnings("ignore")
 import numpy as np, pandas as pd
 from sktime.forecasting.base import ForecastingHorizon
